@@ -84,11 +84,13 @@ Definition obs_eqb (a b:obs) : bool :=
 (* simultaneous substitution *)
 Definition subst (m:ndict) (k:name) : name := match d_find m k with Some v => v | None => k end.
 
-(* a step that is a rename of frame (i,d) by the mapping m *)
-Definition as_rename (p:op) : option (Z * name * ndict) :=
+(* a step that is a rename of frame (i,d) by the mapping m: df.rename itself (strict = true), or
+   dataframe.move within one frame, which the code documents as a rename (strict = false: the property only
+   speaks of df.rename when it says that a failing rename changes nothing) *)
+Definition as_rename (p:op) : option (Z * name * ndict * bool) :=
   match p with
-  | ORename i d m => Some (i, d, m)
-  | OFMove i d n j d' n' => if (i =? j) && name_eqb d d' then Some (i, d, [(n, n')]) else None
+  | ORename i d m => Some (i, d, m, true)
+  | OFMove i d n j d' n' => if (i =? j) && name_eqb d d' then Some (i, d, [(n, n')], false) else None
   | _ => None
   end.
 
@@ -119,7 +121,7 @@ Definition rename_effect (i:Z) (d:name) (m:ndict) (o o':obs) : bool :=
 (* a rename that raises (a clash, an unknown name) changes nothing at all *)
 Definition chk_rename (p:op) (ok:bool) (o o':obs) : bool :=
   match as_rename p with
-  | Some (i, d, m) => if ok then rename_effect i d m o o' else obs_eqb o o'
+  | Some (i, d, m, strict) => if ok then rename_effect i d m o o' else (negb strict || obs_eqb o o')
   | None => true
   end.
 
